@@ -61,16 +61,22 @@ def option_grid(tier):
                ("slices+size", (2, "half"))]
     outers = [True, False, "only"]
     minimizes = ["flops", "size", "write", "combo", "limit"]
-    if tier == "quick":
-        temps = [0.0, 1.0]
-        seeds = [0]
-        repeats = [1, 4]
-    else:
-        temps = [0.0, 0.01, 1.0]
-        seeds = [0, 1]
-        repeats = [1, 4]
+    temps = [0.0, 0.01, 1.0]
+    seeds = [0, 1]
+    repeats = [1, 4] if tier == "quick" else [1, 4, 16]
     return list(itertools.product(targets, outers, minimizes, temps, seeds,
                                   repeats))
+
+
+def tree_list(n, tier):
+    trees = list(U.all_trees(range(n)))
+    if n == 5 and tier == "thorough":
+        return trees
+    if n >= 5:
+        k = 7 if tier == "quick" else 24
+        step = max(1, len(trees) // k)
+        trees = trees[::step][:k]
+    return trees
 
 
 def units(tier, seed):
@@ -78,10 +84,7 @@ def units(tier, seed):
     for name in TH.START_NETS:
         inputs, output, sd = TH.parse_net(name)
         n = len(inputs)
-        trees = list(U.all_trees(range(n)))
-        if n >= 5:
-            step = max(1, len(trees) // 7)
-            trees = trees[::step][:7]
+        trees = tree_list(n, tier)
         for ti in range(len(trees)):
             us.append((name, ti, tier, seed))
     us.sort(key=lambda u: -len(TH.parse_net(u[0])[0]))
@@ -104,11 +107,7 @@ def work(unit):
     res = UnitResult()
     inputs, output, sd = TH.parse_net(name)
     n = len(inputs)
-    trees = list(U.all_trees(range(n)))
-    if n >= 5:
-        step = max(1, len(trees) // 7)
-        trees = trees[::step][:7]
-    nested = trees[ti]
+    nested = tree_list(n, tier)[ti]
     inds = U.used_inds(inputs)
     grid = option_grid(tier)
     for pre in [None, inds[0], inds[-1]]:
